@@ -170,6 +170,15 @@ func runC11(r *run) {
 		for i := 0; i < 40; i++ {
 			emit(caseT{"realloaders", []string{fmt.Sprint(i)}})
 		}
+		// what an included file sees: every name bound around the include tag, at whatever depth of
+		// enclosing scopes the tag sits (set, with, for, macro), plus the with-pairs
+		for _, page := range []string{"{% set greeting = \"Hello\" %}{% for name in names %}{% include \"row.tpl\" %}{% endfor %}",
+			"{% set greeting = \"Hi\" %}{% with mark=\"!\" %}{% for name in names %}{% include \"row.tpl\" %}{% set n = \"row.tpl\" %}{% include n %}{% endfor %}{% endwith %}",
+			"{% set greeting = \"Yo\" %}{% macro m(name) %}{% with mark=\"?\" %}{% include \"row.tpl\" %}{% ssi \"row.tpl\" parsed %}{% endwith %}{% endmacro %}{{ m(\"z\") }}",
+			"{% for name in names %}{% with greeting=name %}{% if name %}{% include \"row.tpl\" with mark=\"+\" %}{% include \"row.tpl\" with mark=\"-\" only %}{% endif %}{% endwith %}{% endfor %}"} {
+			w := &world{files: []map[string]string{{"row.tpl": "[{{ greeting }} {{ name }}{{ mark }}]", "main.tpl": page}}}
+			emit(caseT{"loadlog", w.args("main.tpl", gctx{{"names", gList(gStr("ann"), gStr("bob"))}})})
+		}
 		// an optional file that EXISTS but cannot be compiled or executed - it refers to a missing
 		// file in turn, in each way a file can refer to another - is an error, not "nothing"
 		for _, inner := range []string{"B{% include \"gone.tpl\" %}", "{% extends \"gone.tpl\" %}", "{% import \"gone.tpl\" m %}B", "B{% ssi \"gone.tpl\" parsed %}", "B{% ssi \"gone.tpl\" %}", "B{% set n = \"gone.tpl\" %}{% include n %}",
